@@ -7,7 +7,7 @@ INV = ["OneRecordPerTasking", "NoRecordWithoutTasking", "PointingReflectsTasking
 PROPS = ["NonInterference", "CommitAtomic"]
 def cfg(name, T, S, E="E1", ET="AllT", ES="AllS", pol="PolGreedy", nsteps=2, out=1, est=True, ser=False,
         reset=False, squared=False, keep=False, prio_all=False, prune_eq=False, events="NoEvents", dt=1,
-        IT=None, IS=None, faults=False, partial=False, out_dt=None):
+        IT=None, IS=None, faults=False, partial=False, out_dt=None, interf=False):
     B = lambda b: "TRUE" if b else "FALSE"
     txt = f"""SPECIFICATION Spec
 CONSTANTS
@@ -32,6 +32,7 @@ CONSTANTS
   PriorityToAllEngines = {B(prio_all)}
   PruneKeepsEqual = {B(prune_eq)}
   PartialCommit = {B(partial)}
+  UpdateTouchesTruth = {B(interf)}
 """ + "".join(f"INVARIANT {i}\n" for i in INV) + "".join(f"PROPERTY {p}\n" for p in PROPS)
     Path(__file__).resolve().parent.parent.joinpath("spec", f"MCResonaate_{name}.cfg").write_text(txt)
 cfg("greedy22", "T2", "S2")
@@ -59,3 +60,4 @@ cfg("coded_prio", "T2", "S2", E="E2", pol="PolMixed", nsteps=3, dt=3, events="Du
 cfg("out_nonmultiple", "T1", "S1", nsteps=6, dt=2, out_dt=3, faults=True)
 cfg("out_faults_events", "T2", "S2", IT="T1", nsteps=3, dt=3, events="AddRemove", out_dt=6, faults=True)
 cfg("coded_partialcommit", "T1", "S1", nsteps=2, faults=True, partial=True)
+cfg("coded_interference", "T1", "S1", nsteps=2, interf=True)
